@@ -108,11 +108,26 @@ class G16:
                 kind = r.choice(('undo', 'stop'))
                 tctx = dict(ctx, you=False, defeat=True)
                 body = self.stmts(depth - 1, tctx)
-                if r.random() < 0.5:
+                k = r.random()
+                if k < 0.35:
+                    # the only defeat of the body sits inside an expression
+                    self.need_pick = True
+                    pc = call('!pick', V('z'), V('q'))
+                    body = [self.mark()] + [r.choice([
+                        ret(None if ctx['ret'] == 'empty' else pc) if ctx['ret'] != 'empty' else decl('int', self.nm('w'), pc),
+                        decl('int', self.nm('w'), pc),
+                        if_(bin_('>', pc, I(1)), block(self.mark())),
+                        aug('+', 'z', pc)])]
+                    if r.random() < 0.5:
+                        body.append(self.exit(tctx))
+                elif k < 0.65:
                     body.append(ex(call('!truth_is_defeat', self.cond())))
-                if r.random() < 0.4:
+                if 0.35 <= k and r.random() < 0.4:
                     body.append(ex(call('!is_defeat')))
-                out.append(try_(block(*body), kind, block(*self.stmts(depth - 1, ctx))))
+                handler = self.stmts(depth - 1, ctx)
+                if ctx['loop'] and r.random() < 0.4:
+                    handler.append(r.choice([('cont',), ('break',)]))
+                out.append(try_(block(*body), kind, block(*handler)))
             elif c == 9 and ctx['defeat']:
                 out.append(preempt(*self.stmts(depth - 1, ctx)))
             elif c == 10 and ctx['defeat']:
@@ -152,6 +167,10 @@ class G16:
             calls += show
         main = func('empty', '@is_you', [('int', 'q')], *calls, write(S('END')))
         extra = []
+        if getattr(self, 'need_pick', False):
+            extra.append(func('int', '!pick', [('int', 'a'), ('int', 'b')],
+                              ex(call('!truth_is_defeat', bin_('==', bin_('%', bin_('+', V('a'), V('b')), I(2)), I(1)))),
+                              ret(bin_('+', V('a'), I(1)))))
         if getattr(self, 'fake', False):
             extra = [func('empty', 'all_is_win', [('int', 'p')], write(S('(w)'))),
                      func('empty', 'all_is_broken', [('int', 'p')], write(S('(b)')))]
